@@ -240,6 +240,85 @@ class RateCoefficientFunctions(Lemma):
         return (res.shape != want.shape or not np.allclose(res, want), {"class": cls, "t": t, "sigma(t)": res.tolist(), "expected": want.tolist()})
 
 
+class RateModelConstructor(Lemma):
+    """LevyLiborModel / LevyForwardModel constructors (real bodies; the driver abstract), tenors given as a PYTHON LIST -- what
+    the annotation `list[float]` announces and what the library's own factories pass: the coefficient function the constructor
+    builds evaluates at a time from the first tenor on (rows as in the coefficient-function lemma), the model's tenors are
+    the sorted tenors and its accrual periods `deltas` their successive differences."""
+    prop = "C16"
+    cases = tuple((cls, reg) for cls in ("levylibormodel:LevyLiborModel", "levyforwardmodel:LevyForwardModel") for reg in ("t<T0", "T0<=t<T1"))
+
+    def __init__(self):
+        self.name = "property:rate-model-constructor"
+
+    def prove(self, vc, case):
+        from pyvc.sym import PyRaise
+        cls, reg = case
+        nm = f"{self.name}[{cls.split(':')[1]},{reg}]"
+        m, d = 2, 1
+        T = vc.reals("tenor", m + 1)
+        sg = vc.reals("sigma", m * d)
+        x0 = vc.reals("rate", m)
+        t = vc.real("t")
+        vc.assume(And(T[0] > 0, T[0] < T[1], T[1] < T[2], t >= 0))
+        vc.assume({"t<T0": t < T[0], "T0<=t<T1": And(T[0] <= t, t < T[1])}[reg])
+        S0 = np.array(sg, dtype=object).reshape(m, d)
+        driver = vc.obj("rpylib.model.levymodel.levymodel:LevyModel")
+        it = vc.interp
+        it.hooks["rpylib.model.levymodel.levymodel:LevyModel.dimension"] = lambda it_, f, b: d
+        it.hooks["rpylib.model.levymodel.levymodel:LevyModel.finite_first_moment"] = lambda it_, f, b: True
+        it.hooks["rpylib.model.model:Model.__init__"] = lambda it_, f, b: None
+        kw = {"libor_rates" if "Libor" in cls else "ois_rates": np.array(x0, dtype=object)}
+        try:
+            mod = vc.new("rpylib.model.levydrivensde." + cls, tenors=list(T), sigma=S0.copy(), driver=driver, **kw)
+        except PyRaise as e:
+            vc.check(nm + f"::constructs[{e.exc_type}]", False)
+            return
+        tn = np.asarray(mod.fields["tenors"], dtype=object)
+        vc.check(nm + "::tenors-are-the-sorted-tenors", tn.shape == (m + 1,) and And(*[compare(tn[i], T[i], "==") for i in range(m + 1)]))
+        dl = np.asarray(mod.fields["deltas"], dtype=object)
+        vc.check(nm + "::deltas-are-the-accrual-periods", dl.shape == (m,) and And(*[compare(dl[i], T[i + 1] - T[i], "==") for i in range(m)]))
+        try:
+            res = vc.method(mod.fields["a"], "sigma", t)
+        except PyRaise as e:
+            vc.check(nm + f"::coefficient-function-evaluates[{e.exc_type}]", False)
+            return
+        res = np.asarray(res, dtype=object)
+        ok = res.shape == (m, d)
+        vc.check(nm + "::coefficient-function-evaluates", ok)
+        if not ok:
+            return
+        for i in range(m):
+            if "Libor" in cls:
+                fixed = {"t<T0": False, "T0<=t<T1": i == 0}[reg]
+                want = [0.0 if fixed else S0[i, j] for j in range(d)]
+            else:
+                g = smin(1, smax(0, T[i + 1] - t) / (T[i + 1] - T[i]))
+                want = [S0[i, j] * g for j in range(d)]
+            vc.check(nm + f"::coefficient-row{i}", And(*[compare(res[i, j], want[j], "==") for j in range(d)]))
+
+    def replay(self, model, clause, case):
+        import importlib
+        cls, reg = case
+        mn, cn = cls.split(":")
+        C = getattr(importlib.import_module("rpylib.model.levydrivensde." + mn), cn)
+        from contracts import battery
+        driver = battery.models(("hem",))["hem"]
+        T = [1.0, 2.0, 3.5]
+        S0 = np.array([[0.2], [0.1]])
+        t = {"t<T0": 0.5, "T0<=t<T1": 1.25}[reg]
+        try:
+            kw = {"libor_rates" if "Libor" in cn else "ois_rates": np.array([0.02, 0.03])}
+            mod = C(tenors=list(T), sigma=S0.copy(), driver=driver, **kw)
+            res = np.asarray(mod.a.sigma(t), dtype=float)
+        except Exception as e:
+            return (True, {"class": cn, "tenors (list)": T, "t": t, "exception": f"{type(e).__name__}: {e}"})
+        Ta = np.array(T)
+        want = S0 * (Ta[:-1] > t)[:, None] if "Libor" in cn else S0 * np.minimum(1, np.maximum(0, Ta[1:] - t) / np.diff(Ta))[:, None]
+        bad = res.shape != want.shape or not np.allclose(res, want) or not np.allclose(mod.deltas, np.diff(Ta)) or not np.allclose(mod.tenors, Ta)
+        return (bool(bad), {"class": cn, "t": t, "sigma(t)": res.tolist(), "expected": want.tolist(), "deltas": np.asarray(mod.deltas).tolist()})
+
+
 class ExponentialDf(Lemma):
     """ExponentialOfLevyModel.df(t) = exp(-r t): 1 at 0, positive, non-increasing for r >= 0 (continuity: it is exp of a
     continuous function); LevyModel.df and LevyDrivenSDEModel.df are identically 1."""
@@ -258,7 +337,7 @@ class ExponentialDf(Lemma):
             vc.check(self.name + f"::{cls.split(':')[1]}:identically-one", vc.method(vc.obj(cls), "df", t1) == 1)
 
 
-UNITS = [DiscountFactor(), Euler(), RateCoefficientFunctions(), ExponentialDf()]
+UNITS = [DiscountFactor(), Euler(), RateCoefficientFunctions(), RateModelConstructor(), ExponentialDf()]
 
 
 def LATE_UNITS():
